@@ -449,7 +449,7 @@ impl Check for C14 {
         vec!["thread scheduling/channels (shuttle + seam, bounds overridden)", "world model writing the input files", "real file system in a per-run directory"]
     }
     fn required_reach() -> Vec<&'static str> {
-        vec!["try_send_full", "opt_index_window", "opt_lcs", "opt_eac", "opt_filter_file_dlf", "opt_filter_file_convert", "opt_sort", "opt_output_file", "multi_file", "files_with_equal_start_time", "file_starting_with_maximum_size_message", "filter_file_with_marker_filter", "permutation_compared"]
+        vec!["try_send_full", "opt_index_window", "opt_lcs", "opt_eac", "opt_filter_file_dlf", "opt_filter_file_convert", "opt_sort", "opt_output_file", "multi_file", "files_with_equal_start_time", "file_starting_with_maximum_size_message", "filter_file_with_marker_filter", "output_file_preexisting_and_longer", "permutation_compared"]
     }
 }
 
@@ -538,7 +538,16 @@ fn run_inner(c: &Case, ctx: &mut Ctx, root: &std::path::Path, perm_ok: bool) -> 
     match c.style { 1 => extra.push("-a".into()), 2 => extra.push("-x".into()), 3 => extra.push("-s".into()), _ => {} }
     if c.sort { extra.push("--sort".into()); ctx.probe("opt_sort"); }
     let sel_out = root.join("sel.dlt");
-    if c.output_file { extra.push("-o".into()); extra.push(sel_out.to_string_lossy().to_string()); ctx.probe("opt_output_file"); }
+    if c.output_file {
+        extra.push("-o".into());
+        extra.push(sel_out.to_string_lossy().to_string());
+        ctx.probe("opt_output_file");
+        if c.sched.seed % 3 == 0 {
+            // the output path is reused: it already holds an earlier, longer export
+            std::fs::copy(&bout, &sel_out).unwrap();
+            ctx.probe("output_file_preexisting_and_longer");
+        }
+    }
     if !c.eac.is_empty() {
         extra.push(format!("--eac={}", c.eac.iter().map(|f| f.eac_expr()).collect::<Vec<_>>().join(",")));
         ctx.probe("opt_eac");
